@@ -20,6 +20,7 @@ import (
 	"runtime"
 	"strings"
 	"sync"
+	"sync/atomic"
 	"testing"
 	"time"
 
@@ -60,8 +61,21 @@ type Doc struct {
 }
 
 type Cmd struct {
-	Op        string `json:"op"`                  // lookup | auction | reg | refresh | release
-	V         uint64 `json:"v,omitempty"`         // validator (lookup, auction)
+	// lookup | auction | reg | refresh | release, and the requests made without an account, for a validator
+	// Vouch holds no account for (public key pubkeyOfK(v, foreignK), same settings as validator v):
+	// bid (BuilderBid with nothing cached -> immediateBuilderBid -> auctionBlock(..., nil)) |
+	// fwd (ValidatorRegistrations: a registration forwarded by a beacon node) |
+	// unblind (UnblindBlock -> unblindersForProposal) | lookup with noacc (ProposerConfig(ctx, nil, pubkey))
+	Op        string `json:"op"`
+	V         uint64 `json:"v,omitempty"`         // validator (lookup, auction, bid, fwd, unblind)
+	NoAcc     bool   `json:"noacc,omitempty"`     // lookup: the account argument is nil
+	// auction, bid: the slot the block space is auctioned for (0: slot 100).  Requests arrive for slots in
+	// any order (a beacon node that is syncing or far behind asks for old slots); the answer does not
+	// depend on the slot
+	Slot uint64 `json:"slot,omitempty"`
+	// lookup, auction: the account knows its wallet (e2wtypes.AccountWalletProvider), so its name in the
+	// configuration's account expressions is "wallet-c12/account-v" instead of "<unknown>/account-v"
+	Wallet bool `json:"wallet,omitempty"`
 	Gate      bool   `json:"gate,omitempty"`      // hold the request inside ProposerConfig until released
 	Acc       string `json:"acc,omitempty"`       // refresh: accounts provider: "" (accounts) | err | none
 	Fetch     string `json:"fetch,omitempty"`     // refresh: ok | err | malformed
@@ -113,9 +127,10 @@ type script struct {
 	acc       string // "", err, none
 	many      int    // registration round: accounts per validator
 	fetch     func() ([]byte, error)
-	account   *acct
+	account   e2wtypes.Account
 	bidFee    *uint64 // set by the builder-bid provider: id of the fee recipient it was asked with
 	bidCalled bool
+	forwarded atomic.Int64 // registrations handed to the relay on behalf of this request
 }
 
 func scriptOf(ctx context.Context) *script {
@@ -250,7 +265,10 @@ type relayClient struct{}
 func (relayClient) Name() string             { return "c12-relay" }
 func (relayClient) Address() string          { return relayAddress }
 func (relayClient) Pubkey() *phase0.BLSPubKey { return nil }
-func (relayClient) SubmitValidatorRegistrations(context.Context, *builderapi.SubmitValidatorRegistrationsOpts) error {
+func (relayClient) SubmitValidatorRegistrations(ctx context.Context, opts *builderapi.SubmitValidatorRegistrationsOpts) error {
+	if s := scriptOf(ctx); s != nil && opts != nil {
+		s.forwarded.Add(int64(len(opts.Registrations)))
+	}
 	return nil
 }
 
@@ -314,11 +332,14 @@ func docJSON(d *Doc) []byte {
 				pk := pubkeyOf(v)
 				fmt.Fprintf(&b, `%s{"proposer":"%#x","fee_recipient":"%s"}`, sep, pk[:], docFee(d.ID))
 				sep = ","
+				// the validator with the same settings that Vouch holds no account for
+				pk = pubkeyOfK(v, foreignK)
+				fmt.Fprintf(&b, `%s{"proposer":"%#x","fee_recipient":"%s"}`, sep, pk[:], docFee(d.ID))
 			}
 		}
 		for v := uint64(0); v <= nValidators; v++ {
 			if !bad[v] {
-				fmt.Fprintf(&b, `%s{"proposer":"<unknown>/account-%d(-[0-9]+)?","fee_recipient":"%s"}`, sep, v, docFee(d.ID))
+				fmt.Fprintf(&b, `%s{"proposer":"(<unknown>|wallet-c12)/account-%d(-[0-9]+)?","fee_recipient":"%s"}`, sep, v, docFee(d.ID))
 				sep = ","
 			}
 		}
@@ -441,8 +462,13 @@ func (r *runner) spawn(ctx context.Context, c Cmd, repeat int) {
 	sc := &script{acc: c.Acc}
 	switch c.Op {
 	case "lookup", "auction":
-		th.account = newAcct(c.V, c.Gate)
-		sc.account = th.account
+		if !accountless(c) {
+			th.account = newAcct(c.V, c.Gate)
+			sc.account = th.account
+			if c.Wallet {
+				sc.account = walletAcct{th.account}
+			}
+		}
 	case "refresh":
 		switch c.Fetch {
 		case "ok":
@@ -456,7 +482,7 @@ func (r *runner) spawn(ctx context.Context, c Cmd, repeat int) {
 		}
 	}
 	many := 1
-	if c.Many > 1 && !c.Gate {
+	if c.Many > 1 && !c.Gate && !accountless(c) {
 		many = c.Many
 	}
 	if c.Op == "reg" {
@@ -464,6 +490,7 @@ func (r *runner) spawn(ctx context.Context, c Cmd, repeat int) {
 		many = 1
 	}
 	tctx := context.WithValue(ctx, scriptKey{}, sc)
+	number := len(r.threads)
 	r.threads = append(r.threads, th)
 	go func() {
 		defer close(th.done)
@@ -483,10 +510,21 @@ func (r *runner) spawn(ctx context.Context, c Cmd, repeat int) {
 		}
 		for i := 0; i < repeat; i++ {
 			for k := uint64(0); k < uint64(many); k++ {
-				account := th.account
-				if k > 0 {
-					account = newAcct(c.V, false)
-					account.k = k
+				var account e2wtypes.Account
+				if th.account != nil {
+					a := th.account
+					if k > 0 {
+						a = newAcct(c.V, false)
+						a.k = k
+					}
+					account = a
+					if c.Wallet {
+						account = walletAcct{a}
+					}
+				}
+				if accountless(c) {
+					answer(r.accountlessRequest(tctx, sc, c, number, i))
+					continue
 				}
 				switch c.Op {
 				case "lookup":
@@ -499,7 +537,7 @@ func (r *runner) spawn(ctx context.Context, c Cmd, repeat int) {
 				case "auction":
 					sc.account = account
 					sc.bidCalled, sc.bidFee = false, nil
-					_, err := r.svc.AuctionBlock(tctx, phase0.Slot(100+i), phase0.Hash32{byte(c.V)}, pubkeyOfK(c.V, k))
+					_, err := r.svc.AuctionBlock(tctx, slotOf(c, i), phase0.Hash32{byte(c.V)}, pubkeyOfK(c.V, k))
 					switch {
 					case err != nil:
 						answer("RErr")
@@ -580,6 +618,7 @@ func runOnce(s Scenario, watchdogFactor int) (Obs, bool) {
 		BuilderBidProvider:          bidProvider{},
 		InitialExecutionConfig:      initial,
 	})
+	svc.VerifC12SetValidatorsProvider(validatorsProvider{})
 	r := &runner{svc: svc, watchdog: time.Duration(watchdogFactor) * watchdog()}
 	ctx, cancel := context.WithCancel(context.Background())
 	defer cancel()
@@ -694,12 +733,16 @@ func cmdTerm(c Cmd) string {
 	if c.Op == "release" {
 		return App("Release", Nat(c.K))
 	}
-	kind := map[string]string{"lookup": "KLookup", "auction": "KAuction", "reg": "KReg", "refresh": "KRefresh"}[c.Op]
+	kind := map[string]string{"lookup": "KLookup", "auction": "KAuction", "reg": "KReg", "refresh": "KRefresh",
+		"bid": "KBid", "fwd": "KFwd", "unblind": "KUnblind"}[c.Op]
+	if c.Op == "lookup" && c.NoAcc {
+		kind = "KLookupNA"
+	}
 	ref := Record("rf_acc", "AccSome", "rf_fetch", "FErr")
 	if c.Op == "refresh" {
 		ref = refreshTerm(c)
 	}
-	return App("Spawn", Record("sp_kind", kind, "sp_v", N(c.V), "sp_gate", Bool(c.Gate), "sp_ref", ref))
+	return App("Spawn", Record("sp_kind", kind, "sp_v", N(c.V), "sp_gate", Bool(c.Gate && !accountless(c)), "sp_ref", ref))
 }
 
 func caseTerm(id uint64, s Scenario, o Obs, readerWrites int) string {
@@ -717,7 +760,7 @@ func caseTerm(id uint64, s Scenario, o Obs, readerWrites int) string {
 	}
 	return Record("c_id", N(id), "c_init", init, "c_url", Bool(s.URL), "c_stress", Bool(s.Stress),
 		"c_cmds", List(cmds), "c_obs", List(obs), "c_lock_free", Bool(o.LockFree), "c_timeouts", Nat(o.Timeouts),
-		"c_crashed", Bool(o.Crashed != ""), "c_reader_writes", Nat(readerWrites))
+		"c_crashed", Bool(o.Crashed != ""), "c_panics", Nat(o.Panics), "c_reader_writes", Nat(readerWrites))
 }
 
 // ---------------------------------------------------------------------------------------------
@@ -742,12 +785,46 @@ func (g *genState) add(c Cmd) int {
 	return -1
 }
 
+// one of the four requests made without an account, for the validator with the settings of v
+func (g *genState) accountless(v uint64) {
+	c := Cmd{Op: "lookup", V: v, NoAcc: true}
+	switch g.r.Intn(4) {
+	case 1:
+		c = Cmd{Op: "bid", V: v}
+		if !g.s.Stress {
+			c.Slot = g.slot()
+		}
+	case 2:
+		c = Cmd{Op: "fwd", V: v}
+	case 3:
+		c = Cmd{Op: "unblind", V: v}
+	}
+	g.add(c)
+	g.tags["accountless"] = true
+}
+
+// slots in no particular order, more than the bid cache's horizon (32 slots) apart
+func (g *genState) slot() uint64 {
+	if g.r.Chance(1, 2) {
+		return 0
+	}
+	return []uint64{40, 100, 101, 180, 300, 1000}[g.r.Intn(6)]
+}
+
 func (g *genState) reader(gate bool) {
+	if !gate && g.r.Chance(1, 3) {
+		g.accountless(uint64(g.r.Range(1, nValidators)))
+		return
+	}
 	op := "lookup"
 	if g.r.Chance(2, 5) {
 		op = "auction"
 	}
-	k := g.add(Cmd{Op: op, V: uint64(g.r.Range(1, nValidators)), Gate: gate})
+	c := Cmd{Op: op, V: uint64(g.r.Range(1, nValidators)), Gate: gate, Wallet: g.r.Chance(1, 3)}
+	if op == "auction" && !g.s.Stress {
+		c.Slot = g.slot()
+	}
+	k := g.add(c)
 	if gate {
 		g.openGates = append(g.openGates, k)
 		g.tags["gated-"+op] = true
@@ -880,12 +957,17 @@ func gen(r *Rand, search bool) Scenario {
 			}
 			reg := r.Chance(1, 2)
 			for w := 0; w < workers; w++ {
-				c := Cmd{Op: "lookup", V: uint64(r.Range(1, nValidators)), Many: many, NoSettle: true}
+				c := Cmd{Op: "lookup", V: uint64(r.Range(1, nValidators)), Many: many, NoSettle: true, Wallet: r.Chance(1, 3)}
 				if r.Chance(2, 5) {
 					c.Op = "auction"
 				}
 				if reg && w == workers/2 {
 					c = Cmd{Op: "reg", Many: many / 4, NoSettle: true}
+				} else if r.Chance(1, 6) {
+					// a request without an account in the group (one request, not a series)
+					c = Cmd{Op: []string{"lookup", "bid", "fwd", "unblind"}[r.Intn(4)], V: c.V, NoSettle: true}
+					c.NoAcc = c.Op == "lookup"
+					g.tags["accountless"] = true
 				}
 				if w == workers-1 && !queued {
 					c.NoSettle = false
@@ -916,6 +998,58 @@ func gen(r *Rand, search bool) Scenario {
 		if r.Chance(1, 2) {
 			g.add(Cmd{Op: "reg"})
 		}
+	case fam == 2:
+		// requests made without an account (builder bid requests, forwarded registrations, unblinding,
+		// lookups with a nil account) in every configuration state: before any refresh (nothing / the
+		// default), after a document that makes some validators unresolvable (for those and for the
+		// others), after refreshes that fail and keep it, after the next document; some of them while
+		// a refresh waits for a request held inside the read lock (they queue behind the writer)
+		g.tags["accountless-family"] = true
+		all := func(v uint64) {
+			for _, c := range []Cmd{{Op: "lookup", V: v, NoAcc: true}, {Op: "bid", V: v}, {Op: "fwd", V: v}, {Op: "unblind", V: v}} {
+				if r.Chance(3, 4) {
+					g.add(c)
+					g.tags["accountless"] = true
+				}
+			}
+		}
+		all(uint64(r.Range(1, nValidators)))
+		for round, rounds := 0, r.Range(1, 3); round < rounds; round++ {
+			d := g.doc()
+			bad := uint64(r.Range(1, nValidators))
+			if r.Chance(3, 4) {
+				d.Bad = []uint64{bad}
+				if r.Chance(1, 3) {
+					d.Bad = append(d.Bad, uint64(r.Range(1, nValidators)))
+				}
+				g.tags["unresolvable"] = true
+			} else {
+				d.Bad = nil
+				d.Entries = r.Bool()
+			}
+			queued := r.Chance(1, 3)
+			if queued {
+				g.reader(true)
+			}
+			g.add(Cmd{Op: "refresh", Fetch: "ok", Doc: d})
+			if queued {
+				g.inflight = append([]int{}, g.openGates...)
+				g.tags["writer-inside-reader"] = true
+				all(bad) // blocked behind the announced writer until the gate opens
+				for len(g.openGates) > 0 {
+					g.release(r.Intn(len(g.openGates)))
+				}
+			}
+			all(bad)
+			all(uint64(r.Range(1, nValidators)))
+			if r.Chance(1, 2) {
+				g.add(Cmd{Op: "reg"})
+			}
+			for i, n := 0, r.Range(0, 2); i < n; i++ {
+				g.refresh(false)
+				all(bad)
+			}
+		}
 	case fam <= 1:
 		// the path the statement names: settings that cannot be resolved, then a refresh, then lookups
 		g.tags["unresolvable-refresh-lookup"] = true
@@ -932,7 +1066,11 @@ func gen(r *Rand, search bool) Scenario {
 			if r.Chance(1, 3) {
 				op = "lookup"
 			}
-			g.add(Cmd{Op: op, V: bad})
+			if r.Chance(1, 3) {
+				g.accountless(bad)
+			} else {
+				g.add(Cmd{Op: op, V: bad})
+			}
 		}
 		g.refresh(false)
 		g.reader(false)
@@ -1173,7 +1311,9 @@ func TestC12(t *testing.T) {
 	}
 	trace := os.Getenv("VERIF_TIER") == "thorough"
 	for i := 0; i < n; i++ {
-		work = append(work, Work{S: gen(rng.Fork(), search), Origin: "generated", Trace: trace && i%2 == 1})
+		// thorough tier: every other scenario at trace level; quick tier: every fourth (code under
+		// "if e := log.Trace(); e.Enabled()" and the arguments of log calls are part of the request)
+		work = append(work, Work{S: gen(rng.Fork(), search), Origin: "generated", Trace: (trace && i%2 == 1) || i%4 == 3})
 	}
 	results, crashes := runAll(t, work)
 
@@ -1220,9 +1360,13 @@ func TestC12(t *testing.T) {
 			case "refresh":
 				refreshes++
 				col.Count("refresh-" + c.Acc + "-" + c.Fetch)
-			case "lookup", "auction":
+			case "lookup", "auction", "bid", "fwd", "unblind":
 				readers++
-				col.Count(c.Op)
+				if c.Op == "lookup" && c.NoAcc {
+					col.Count("lookup-without-account")
+				} else {
+					col.Count(c.Op)
+				}
 				if c.Gate {
 					col.Count("gated")
 				}
